@@ -3,6 +3,7 @@ package rules
 import (
 	"fmt"
 	"go/ast"
+	"go/token"
 	"go/types"
 	"sort"
 	"strings"
@@ -20,6 +21,7 @@ func c14(r *core.Report) {
 	r.Assumption("behaviour over sequences of handler calls (no write at all, the strict-mode WriteHeader(0) case) is a history property of the wrapper state machine and is not decided")
 	c14Retain(r)
 	c14Implicit(r)
+	c14Status(r)
 	mw := p.SSAFuncOf("openapi3filter", "Validator.Middleware")
 	if len(mw.AnonFuncs) != 1 {
 		core.Fail("Validator.Middleware has %d closures, expected 1", len(mw.AnonFuncs))
@@ -634,6 +636,107 @@ func c14Implicit(r *core.Report) {
 			} else {
 				r.Bad(key, p.Pos(w.write.Pos()), fmt.Sprintf("%s.Write does not mark the header as written (neither a call of its WriteHeader nor %s = true before the body is taken): a WriteHeader call after the first Write then replaces the status, and the response is validated and sent under a status the handler's implicit 200 never had", tn, strings.Join(fl, "/")))
 			}
+		}
+	})
+}
+
+// c14Status: the status handed to the wrapped writer is a real status. A handler that returns
+// without writing leaves the recorded status at 0; net/http answers 200 for such a handler, while
+// WriteHeader(0) panics ("invalid WriteHeader code 0").
+func c14Status(r *core.Report) {
+	p := r.Prog
+	info := p.Pkg("openapi3filter").TypesInfo
+	r.RunRule("C14.status", "the wrapped writer is never given status 0: in the response wrappers of openapi3filter, every WriteHeader call on the wrapped http.ResponseWriter passes the method's own parameter (the handler's code, forwarded), a constant, or a value read through an accessor that substitutes 200 for an unwritten (zero) status; and that accessor is what the middleware validates the response under", 2, func() {
+		// accessors: methods returning int that return a constant under a `== 0` test of a receiver field
+		defaulting := map[*types.Func]bool{}
+		for _, d := range p.AllDecls("openapi3filter") {
+			if d.Recv == nil || d.Body == nil || d.Type.Results == nil || len(d.Type.Results.List) != 1 {
+				continue
+			}
+			if b, ok := info.TypeOf(d.Type.Results.List[0].Type).Underlying().(*types.Basic); !ok || b.Kind() != types.Int {
+				continue
+			}
+			ok := false
+			ast.Inspect(d.Body, func(n ast.Node) bool {
+				is, isIf := n.(*ast.IfStmt)
+				if !isIf {
+					return true
+				}
+				be, isBE := ast.Unparen(is.Cond).(*ast.BinaryExpr)
+				if !isBE || be.Op != token.EQL {
+					return true
+				}
+				if z, isZ := intConst(info, be.Y); !isZ || z != 0 {
+					return true
+				}
+				for _, st := range is.Body.List {
+					if ret, isRet := st.(*ast.ReturnStmt); isRet && len(ret.Results) == 1 {
+						if v, isC := intConst(info, ret.Results[0]); isC && v >= 100 {
+							ok = true
+						}
+					}
+				}
+				return true
+			})
+			if ok {
+				if f, isF := info.Defs[d.Name].(*types.Func); isF {
+					defaulting[f] = true
+				}
+			}
+		}
+		perFn := map[string]int{}
+		for _, d := range p.AllDecls("openapi3filter") {
+			if d.Recv == nil || d.Body == nil {
+				continue
+			}
+			ast.Inspect(d.Body, func(n ast.Node) bool {
+				c, ok := n.(*ast.CallExpr)
+				if !ok || len(c.Args) != 1 {
+					return true
+				}
+				sel, ok := ast.Unparen(c.Fun).(*ast.SelectorExpr)
+				if !ok || sel.Sel.Name != "WriteHeader" {
+					return true
+				}
+				// on a value of interface type http.ResponseWriter (the wrapped writer)
+				nn := core.NamedOf(info.TypeOf(sel.X))
+				if nn == nil || nn.Obj().Name() != "ResponseWriter" || nn.Obj().Pkg().Path() != "net/http" {
+					return true
+				}
+				fname := core.FuncName(d)
+				perFn[fname]++
+				key := fmt.Sprintf("status:%s#%d", fname, perFn[fname])
+				arg := ast.Unparen(c.Args[0])
+				good := ""
+				if _, isC := intConst(info, arg); isC {
+					good = "a constant"
+				}
+				if id, isId := arg.(*ast.Ident); isId {
+					for _, f := range d.Type.Params.List {
+						for _, nm := range f.Names {
+							if info.ObjectOf(nm) == info.ObjectOf(id) {
+								good = "the code the handler passed, forwarded"
+							}
+						}
+					}
+				}
+				if d.Name.Name == "WriteHeader" && good == "" {
+					if fs, isSel := arg.(*ast.SelectorExpr); isSel && core.FieldSel(info, fs) != nil {
+						good = "inside the wrapper's own WriteHeader: a code the handler passed (the first one recorded) is forwarded"
+					}
+				}
+				if ce, isCall := arg.(*ast.CallExpr); isCall {
+					if f := core.CalleeOf(info, ce); f != nil && defaulting[f] {
+						good = "read through " + f.Name() + "(), which substitutes a real status for 0"
+					}
+				}
+				if good != "" {
+					r.OK(key, p.Pos(c.Pos()), good)
+				} else {
+					r.Bad(key, p.Pos(c.Pos()), fmt.Sprintf("%s hands %s to the wrapped writer's WriteHeader: when the handler returned without writing anything that value is 0, and net/http panics with `invalid WriteHeader code 0` (the response should be the implicit 200)", fname, core.ExprStr(arg)))
+				}
+				return true
+			})
 		}
 	})
 }
